@@ -1,5 +1,5 @@
 (* driver.ml — line protocol for the dial model (engine smtpdial: C07, C17, C19).
-   input : <id> <kind> <policy> <ssl> <auth> <custom> <host> <nonoop> <mute> <caps> <capstls> <hs> <script> <msgs>
+   input : <id> <kind> <policy> <ssl> <auth> <custom> <host> <nonoop> <mute> <caps> <capstls> <hs> <script> <msgs> [<fallback 0|1> <refused dial attempts>]
      kind dial|das|sess   policy M|O|N   ssl 0|1   auth/host: hex   custom: - | plain0 | plain1 | login0 | cram | xoauth2
      nonoop 0|1   mute: - | n   caps/capstls: hex list   hs: ok|wrongname|untrusted|garbage|stall
      script: - | comma list of ok|drop|stall|<code>|<code>b|<code>e   msgs: - | comma list of recipient counts
@@ -27,7 +27,7 @@ let err_class (e : M.err) : string = match e with
   | M.EHang -> "HANG" | M.ETls -> "tls" | M.ENoStartTLS -> "nostarttls" | M.ENoAuth -> "noauth" | M.ENoMech -> "nomech"
   | M.ENoDiscover -> "nodiscover" | M.ENonTLS -> "nontls" | M.ENoConn -> "noconn" | M.EBadType -> "badtype"
   | M.EUnenc -> "unenc" | M.EWrongHost -> "wronghost" | M.EMech -> "mech" | M.EHelloAfter -> "helloafter"
-  | M.ENotConnected -> "notconn" | M.ESend -> "send" | M.EFuel -> "FUEL"
+  | M.ENotConnected -> "notconn" | M.ESend -> "send" | M.EFuel -> "FUEL" | M.EDial -> "dialfail"
 
 let res_class (r : unit M.res) : string = match r with M.Ok _ -> "ok" | M.Err e -> err_class e
 
@@ -46,20 +46,49 @@ let decision_of (s : string) : M.decision =
     else if n > 0 && s.[n - 1] = 'e' then M.DReply (n_of_int (int_of_string (String.sub s 0 (n - 1))), M.TxEmpty)
     else M.DReply (n_of_int (int_of_string s), M.TxPlain)
 
-let run (toks : string list) : string =
+(* configuration calls: <form W|S><call>[:arg], form ignored (an Option and the setter of the same name do the same):
+   P:<M|O|N> (With|Set)TLSPolicy   Q:<M|O|N> (With|Set)TLSPortPolicy   S[:0|1] WithSSL / SetSSL
+   L:<fb> WithSSLPort(fb)  L:<ssl><fb> SetSSLPort(ssl, fb)   N:<port> WithPort *)
+let policy_of s = match s with "M" -> M.Mandatory | "O" -> M.Opportunistic | _ -> M.NoTLS
+let call_of (t : string) : M.cfg_call =
+  let body = String.sub t 1 (String.length t - 1) in
+  let (name, arg) = (match String.index_opt body ':' with
+      | Some i -> (String.sub body 0 i, String.sub body (i + 1) (String.length body - i - 1))
+      | None -> (body, "")) in
+  match name with
+  | "P" -> M.CTLSPolicy (policy_of arg)
+  | "Q" -> M.CTLSPortPolicy (policy_of arg)
+  | "S" -> M.CSSL (arg <> "0")
+  | "L" -> if String.length arg = 1 then M.CSSLPort (true, arg = "1") else M.CSSLPort (arg.[0] = '1', arg.[1] = '1')
+  | _ -> M.CPort (n_of_int (int_of_string arg))
+
+let rec run (toks : string list) : string =
   match toks with
+  | ["cfg"; calls] ->
+    let l = if calls = "-" then [] else List.map call_of (split_on ',' calls) in
+    let cc = M.apply_cfg l in
+    let pol = (match cc.M.cc_policy with M.Mandatory -> "M" | M.Opportunistic -> "O" | M.NoTLS -> "N") in
+    let fb = int_of_n cc.M.cc_fallback in
+    let head = Printf.sprintf "policy=%s port=%d fb=%d ssl=%d" pol (int_of_n cc.M.cc_port) fb (if cc.M.cc_ssl then 1 else 0) in
+    (* the dial of the configured client (custom dial function, no implicit TLS) against a server without STARTTLS:
+       NOAUTH, host mail.verif.test, capability 8BITMIME, one message with one recipient *)
+    if cc.M.cc_ssl then head ^ " dial=-"
+    else head ^ " dial=" ^ run ["das"; pol; "0"; "4e4f41555448"; "-"; "6d61696c2e76657269662e74657374"; "0"; "-";
+                                "384249544d494d45"; "384249544d494d45"; "ok"; "-"; "1"; (if fb <> 0 then "1" else "0"); "0"]
   | [kind; pol; ssl; auth; custom; host; nonoop; mute; caps; capstls; hs; script; msgs] ->
+    run [kind; pol; ssl; auth; custom; host; nonoop; mute; caps; capstls; hs; script; msgs; "0"; "0"]
+  | [kind; pol; ssl; auth; custom; host; nonoop; mute; caps; capstls; hs; script; msgs; fb; refuse] ->
     let k = (match kind with "dial" -> M.KDial | "das" -> M.KDas | _ -> M.KSess) in
     let p = (match pol with "M" -> M.Mandatory | "O" -> M.Opportunistic | _ -> M.NoTLS) in
     let cu = (match custom with
         | "plain0" -> Some (M.plain_impl false) | "plain1" -> Some (M.plain_impl true)
         | "login0" -> Some (M.login_impl false) | "cram" -> Some M.cram_impl | "xoauth2" -> Some M.xoauth2_impl
         | _ -> None) in
-    let cfg = M.cfg_src p (ssl = "1") (bytes_of_hex auth) cu (bytes_of_hex host) (nonoop = "1") in
+    let cfg = M.cfg_src p (ssl = "1") (bytes_of_hex auth) cu (bytes_of_hex host) (nonoop = "1") (fb = "1") in
     let sc = if script = "-" then [] else List.map decision_of (split_on ',' script) in
     let mu = if mute = "-" then None else Some (nat_of_int (int_of_string mute)) in
     let h = (match hs with "ok" -> M.HsOk | "stall" -> M.HsStall | _ -> M.HsFail) in
-    let srv = M.srv0 sc mu (byteslist_of caps) (byteslist_of capstls) h in
+    let srv = M.set_refuse (M.srv0 sc mu (byteslist_of caps) (byteslist_of capstls) h) (nat_of_int (int_of_string refuse)) in
     let ms = if msgs = "-" then [] else List.map (fun x -> nat_of_int (int_of_string x)) (split_on ',' msgs) in
     let ((results, ph), w) = M.run_case k cfg srv ms in
     (* TCP: whether a write to a connection closed by the peer fails at once or the following read sees EOF is the
